@@ -3,7 +3,8 @@
 
     [C08_binds_order_log]: in the events of a plan-free serial pass from a state with [Inv], [ValInvB],
     [Tplain]: between a function or cutoff event [e] of a node [n] created by bind [a]
-    ([scope n = Some a]) and a LATER run of [a]'s bind function ([EvBindFn a _ _], the swap that
+    ([sub s' n a]: [scope n = Some a], or through nested binds; the statement refuted for
+    ParallelStabilize is the special case [scope n = Some a]) and a LATER run of [a]'s bind function ([EvBindFn a _ _], the swap that
     replaces [n]'s generation) there is an [EvNec n] or an [EvUnnec n]: the node left the graph, or
     came back, in between -- it did not run in the period of necessity in which its bind swapped.
     (The log is most recent first: [evs = pre ++ EvBindFn a x root :: mid ++ e :: post].)
@@ -21,7 +22,7 @@ Theorem C08_binds_order_log : forall s s',
   Inv s -> ValInvB s -> Tplain s -> stabilize [] false s = Ok (s', None) ->
   forall evs pre x root a mid e post n, log s' = evs ++ log s ->
     evs = pre ++ EvBindFn a x root :: mid ++ e :: post ->
-    ev_node e = Some n -> scope (nd s' n) = Some a -> EvNec n ∈ mid \/ EvUnnec n ∈ mid.
+    ev_node e = Some n -> sub s' n a -> EvNec n ∈ mid \/ EvUnnec n ∈ mid.
 Proof. exact pass_order_log. Qed.
 Print Assumptions C08_binds_order_log.
 
@@ -29,7 +30,7 @@ Theorem C08_binds_order_call : forall s0 base s a,
   PInv s -> OD s (Some a) -> LGx s0 base s ->
   nkind (nd s a) = KBindLhs a ->
   forall evs pre e post n, log s = evs ++ base -> evs = pre ++ e :: post -> ev_node e = Some n ->
-    scope (nd s n) = Some a -> EvNec n ∈ pre \/ EvUnnec n ∈ pre.
+    sub s n a -> EvNec n ∈ pre \/ EvUnnec n ∈ pre.
 Proof. exact QOrd2_of. Qed.
 Print Assumptions C08_binds_order_call.
 
